@@ -194,6 +194,28 @@ func runC04(c *Ctx) {
 			c.Check(K(g.Name, "send on out"), s.Send.Pos(), ok, "a value is streamed to the caller only when it is better than all before", "send not guarded by `better`")
 		}
 		c.Check(K(f.Name, "streams"), f.Pos(), n >= 1, "searchValueQuorum streams values", "no send on out")
+		// the better value is streamed before the search may be stopped: every `return true`
+		// (abort) of the callback is reached only after the `better` test
+		for _, g := range f.Lits {
+			better := paramObj(g, "better")
+			if better == nil {
+				continue
+			}
+			gcf := g.CFG()
+			ginfo := g.Info()
+			var tests []eng.Loc
+			for _, b := range gcf.G.Blocks {
+				if cond := gcf.Cond(b); b.Live && cond != nil && eng.Mentions(ginfo, cond, better) {
+					tests = append(tests, gcf.LocOf(cond))
+				}
+			}
+			for _, ret := range gcf.Returns() {
+				if len(ret.Results) == 1 && isBoolConst(ginfo, ret.Results[0], true) {
+					ok, w := gcf.MustPass(gcf.Entry(), eng.LocSet(gcf.LocOf(ret)), eng.LocSet(tests...))
+					c.CheckW(K(g.Name, "stream before stop"), ret.Pos(), ok, "a better value is streamed before the quorum test may end the search", "the abort return is reachable without passing the `better` test", gcf.DescribePath(w))
+				}
+			}
+		}
 	}
 
 	// R3
